@@ -148,19 +148,48 @@ func unhx(s string) []byte {
 // nonce / key / identity buffer and refills it): the library may not remember an argument by reference.  The slice
 // has exact capacity, like exact().
 var argSlots = map[string][]byte{}
+var argCalls = map[string]int{}
 
 func argBuf(slot string, x []byte) []byte {
+	b, _ := argBufChecked(slot, x)
+	return b
+}
+
+// argBufChecked: as argBuf; every second call per slot the slice keeps SPARE CAPACITY behind its length (a nonce or
+// key assembled by append in a roomy buffer), filled with a pattern.  check() says what the callee changed in the
+// argument's own octets or in the memory behind it: arguments are read-only.
+func argBufChecked(slot string, x []byte) (buf []byte, check func() string) {
 	if x == nil {
-		return nil
+		return nil, func() string { return "" }
 	}
 	b := argSlots[slot]
-	if cap(b) < len(x) {
-		b = make([]byte, len(x), len(x)+64)
+	if cap(b) < len(x)+64 {
+		b = make([]byte, len(x), len(x)+128)
 		argSlots[slot] = b
 	}
-	b = b[:len(x):len(x)]
-	copy(b, x)
-	return b
+	argCalls[slot]++
+	spare := 0
+	if argCalls[slot]%2 == 0 {
+		spare = 64
+	}
+	full := b[: len(x)+spare : len(x)+spare]
+	copy(full, x)
+	for i := len(x); i < len(full); i++ {
+		full[i] = 0xC3
+	}
+	want := append([]byte{}, full...)
+	buf = full[:len(x)]
+	return buf, func() string {
+		for i := range want {
+			if full[i] != want[i] {
+				if i < len(x) {
+					return fmt.Sprintf("octet %d of the argument itself was changed (%02x -> %02x)", i, want[i], full[i])
+				}
+				return fmt.Sprintf("octet %d behind the argument's length (spare capacity of the caller's buffer) was written (%02x -> %02x)", i-len(x), want[i], full[i])
+			}
+		}
+		return ""
+	}
 }
 
 // roBuf: a copy of b in its own backing array — with exact capacity, or (spare) followed by 48 pattern octets of spare
